@@ -116,6 +116,26 @@ def op_strategy(draw, v, led, weights, backend="file", history=()):
         if pgs:
             extra = draw(st.lists(st.sampled_from(pgs), min_size=0, max_size=3))
             pool = pool + extra
+            # a NEW relative (child / sibling) of a page already in the pool: inserting it rewrites that page's block
+            for x in extra[:2]:
+                if draw(st.booleans()):
+                    pool.append(draw(relative_of(v, x)))
+        if pgs and draw(st.integers(0, 3)) == 0:
+            # template for the "stale cached node" class: page B is named first (so the request caches its node), then a NEW
+            # relative of B is inserted (which rewrites B's block on disk), then B is used again as a source
+            crawled = sorted(p for p, c in led.pages.items() if c)
+            Bp = draw(st.sampled_from(crawled if crawled and draw(st.booleans()) else pgs))
+            rel = draw(relative_of(v, Bp))
+            A = draw(st.sampled_from(pool))
+            others = [draw(st.sampled_from(pool)) for _ in range(draw(st.integers(0, 2)))]
+            olds = [draw(st.sampled_from(pgs)) for _ in range(draw(st.integers(1, 2)))]
+            if kind == "links":
+                pairs = [(A, Bp)] + [(A, o) for o in others] + [(A, rel)] + [(Bp, o) for o in olds]
+                return ("links", [(T(x), T(y)) for x, y in pairs])
+            first = [Bp] + others + [rel]
+            if draw(st.booleans()):
+                first = [Bp, rel] + others
+            return ("batch", [(T(A), [T(x) for x in first]), (T(Bp), [T(x) for x in olds])], draw(st.sampled_from([1, 1, 2, 50])))
         if kind == "links":
             n = draw(st.integers(0, 6))
             pairs = []
@@ -127,12 +147,18 @@ def op_strategy(draw, v, led, weights, backend="file", history=()):
         n = draw(st.integers(0, 3))
         data = []
         seen = set()
+        named = []
         for _ in range(n):
-            s = T(draw(st.sampled_from(pool)))
+            # a later source is, half of the time, a page that an earlier row named as target
+            if named and draw(st.booleans()):
+                s = T(draw(st.sampled_from(named)))
+            else:
+                s = T(draw(st.sampled_from(pool)))
             if s in seen:
                 continue
             seen.add(s)
             ts = [T(draw(st.sampled_from(pool))) for _ in range(draw(st.integers(0, 4)))]
+            named += [x for x in ts if isinstance(x, bytes)]
             data.append((s, ts))
         return ("batch", data, draw(st.sampled_from([1, 1, 2, 50])))
     if kind == "create":
@@ -171,6 +197,9 @@ def op_strategy(draw, v, led, weights, backend="file", history=()):
         r = draw(st.integers(0, 9))
         if r == 0:
             return ("move", T(p), to, False)
+        if r in (2, 3):
+            # the API also accepts a prefix that is attached to nothing when no source is named
+            return ("move", T(draw(lru_from(v, known))), to, False)
         if r == 1:
             return ("move", T(p), to, draw(st.sampled_from(sorted(set(led.issued)))))
         return ("move", T(p), to, w)
